@@ -220,6 +220,8 @@ def oracle_c05(ctx, c, res, perm_res=None):
                                 dict(c, T=Tr), rec[nm], vals[p][Ts.index(Tr)])
     # (b2) array arguments give, element by element, what scalar arguments give
     for kind, a in (res.get('cp_arrays') or {}).items():
+        if a.get('outside'):
+            continue            # C06's subject
         if 'exc' in a:
             ctx.violate(key + '|cp-array-exc:' + kind, 'get_CpoR on a %s array of in-range temperatures raised %s' % (kind, a['exc']),
                         dict(c, array=kind), 'array of Cp/R', a)
@@ -386,6 +388,27 @@ def run(ctx):
     rs = results[len(cases) + len(twins):]
     twin_of = {id(c): r for (c, _), r in zip(twins, rt)}
     hist = {}
+    # correlations assembled by MERGING pieces (reference values from one source, table from another): the reference values are
+    # returned at the reference temperature, and the object behaves like one constructed from the same data directly
+    from props import c13
+    import json as _json
+    seqs = [c13.gen_seq(ctx) for _ in range(ctx.n(40, 400))]
+    for job_, r_ in zip(seqs, vlib.run_impl_sharded('thermo', seqs, timeout=900)):
+        for k_, st_ in enumerate(r_.get('steps', [])):
+            sv = st_.get('self_vals') or {}
+            if 'exc' in st_ or 'cur' not in sv:
+                continue
+            stt = st_['state']
+            hist['merged'] = hist.get('merged', 0) + 1
+            ctx.count(('merged', _json.dumps(job_['init'], sort_keys=True), k_))
+            if stt['T_ref'] in sv['T'] and stt['tab']:
+                i_ = sv['T'].index(stt['T_ref'])
+                for pn, fld in (('h', 'H'), ('s', 'S')):
+                    v_ = sv['cur'][pn][i_]
+                    if stt[fld] is not None and 'exc' not in v_ and v_.get('v') is not None and abs(v_['v'] - stt[fld]['v']) > 1e-9 * (1 + abs(stt[fld]['v'])):
+                        ctx.violate('merged-ref:%s' % fld, 'a correlation assembled by merging does not return its reference %s at the reference temperature' % fld,
+                                    dict(job_, step=k_), stt[fld]['v'], v_)
+                        break
     for c, r in zip(cases, rc):
         if '_child_failed' in r or 'job_exc' in r:
             ctx.broken.append('implementation child failed: %s' % str(r)[:300])
